@@ -335,6 +335,9 @@ pub fn selftest() -> Result<(), String> {
             return Err(format!("anchor {:?}: got {} want {}", m, got, want));
         }
     }
+    if cfg!(miri) {
+        return Ok(()); // the interpreter is ~4 orders of magnitude slower: anchors only
+    }
     // Stream memoisation == plain recursion.
     let data: Vec<u8> = (0..70_000u32).map(|i| (i.wrapping_mul(2654435761) >> 13) as u8).collect();
     for &n in &[0usize, 1, 1024, 1025, 2048, 3073, 8192, 31744, 65536, 69999] {
